@@ -262,9 +262,15 @@ func runC11(s *sim.Sim, variant int) {
 			return c.result, err
 		}
 	}
+	// releasing a result may take time (e.g. closing a stream): optionally a scheduling point
+	slowCleanup := variant == 2 && s.Chance(0.4, "slow-cleanup")
 	cleanup := func(r string) {
-		s.Locked(func() { cleaned[r]++ })
+		n := 0
+		s.Locked(func() { cleaned[r]++; n = cleaned[r] })
 		s.Event("cleanup %s", r)
+		if slowCleanup {
+			s.Park(fmt.Sprintf("cleanup-%s#%d", r, n))
+		}
 	}
 
 	var (
@@ -434,8 +440,8 @@ func runC11(s *sim.Sim, variant int) {
 				failureReleased = true
 			}
 		}
-		// --- promptness of errors
-		if !returned {
+		// --- promptness of errors (a call that sits in the caller's slow clean-up function cannot return yet)
+		if !returned && len(s.ParkedWithPrefix("cleanup-")) == 0 {
 			if cancelled {
 				s.Fail("no-return-after-cancel", "", "caller context ended but the call has not returned")
 			}
@@ -522,8 +528,12 @@ func runC11(s *sim.Sim, variant int) {
 				if cancelled && (retErr == error(cause) || errors.Is(retErr, context.Canceled)) {
 					ok = true
 				}
-				if te := terminalSeen(); te != nil && retErr == te {
-					ok = true
+				for _, c := range allCalls() {
+					// any terminal error a replica returned justifies the failure (several may arrive before the call returns)
+					var te *termErr
+					if c.done && c.err != nil && useTerminal && !c.late && errors.As(c.err, &te) && retErr == c.err {
+						ok = true
+					}
 				}
 				for _, cs := range sets {
 					if cs.exceeded() {
